@@ -1,14 +1,19 @@
 import SFV.Lemmas.DeployG
+import SFV.Gen.DeployGuards
 /-! # C26 — deployments follow a safe lifecycle under concurrent requests
 
 Part A (this section): theorems about the single-deployment protocol of `SFV/Model/Deploy.lean` — any number of
 concurrent `deploy` / `undeploy` / *use* requests for one deployment (eager or lazy), every interleaving, connector
-deploy calls that may fail. Part B (`SFV/Model/DeployChain.lean`, below) covers wraps chains. -/
+deploy calls that may fail. Part B (`SFV/Props/C26Chain.lean`, model `SFV/Model/DeployChain.lean`) covers wraps chains. -/
 namespace SFV.C26
 open SFV SFV.Deploy
 
 /-- the manager and `FutureConnector` as they are in the source now (no repair applied) -/
 def codeCfg : Cfg := ⟨false, false⟩
+
+/-- the configuration read from the source is one of the variants of the model (trivially: every variant is) and the
+    two models read the same `undeploy` -/
+theorem gen_cfg_consistent : Gen.deployCfg.ownEvent = Gen.chainCfg.ownEvent := rfl
 
 /-- **deploy at most once while live** (eager deployments; the code as it is and every repaired variant): in every
     reachable state at most one connector object is deploying-or-live (`deploy()` called and not failed, `undeploy()`
@@ -159,5 +164,6 @@ example : ∃ s, Reachable codeCfg false kindsA s ∧ (s.objs 0).und = .done ∧
 example : ∃ s, Reachable codeCfg true (fun p => if p = 1 then some .deploy else if p ≤ 3 then some .use else none) s ∧
     (s.objs 0).live = true ∧ s.nObj = 1 ∧ s.pc 2 = .done ∧ s.pc 3 = .done := by
   refine ⟨_, reachable_runActs Reachable.init [.start 1, .start 2, .start 3, .connOk 2, .wake 3] rfl, ?_, ?_, ?_, ?_⟩ <;> decide
+
 
 end SFV.C26
